@@ -68,8 +68,8 @@ def scenario_from(job, o):
         if job.harness.endswith("h_verify_ref.c"):
             return "\n".join(["kind verify"] + lines) + "\n"
         inv = {1: "E", 2: "N", 3: "O", 4: "A", 5: "o", 6: "a", 7: "R", 8: "F", 9: "G", 10: "H"}
-        seq = "".join(inv.get(int(d.get("VC_S%d" % i, "0")), "") for i in range(8))
-        nm = _trace_array(tr, "nm", 2) or b"ab"
+        seq = "".join(inv.get(int(d.get("VC_OP%d" % i, "0")), "") for i in range(24))
+        nm = bytes([int(d["VC_NM0"], 0), int(d["VC_NM1"], 0)]) if "VC_NM0" in d else (_trace_array(tr, "nm", 2) or b"ab")
         return "\n".join(["kind parser_seq"] + lines + ["calls " + seq, "name_a %02x" % nm[0], "name_b %02x" % nm[1]]) + "\n"
     return None
 
